@@ -163,8 +163,11 @@ def run_case(case, ctx):
 
 
 NAMES = ["a.txt", "b.py", "src/main.c", "src/util.c", "src/sub/deep.c", "docs/index.md", "docs/img/logo.png", "data/x?y.dat", "st*r.txt",
-         "README", "src/a b.c", "ab.txt", "a1.txt", "back\\slash.txt", "docs/q.md"]
+         "README", "src/a b.c", "ab.txt", "a1.txt", "back\\slash.txt", "docs/q.md",
+         # names that merely begin like a name some pattern spells out in full
+         "README.rst", "a.txt.orig", "src/main.c.bak", "b.pyc", "docs/index.md5"]
 PATTERNS = ["*", "src/*", "*.txt", "docs/*.md", "src/sub/*", "a?.txt", "st\\*r.txt", "data/x\\?y.dat", "docs/img/*", "README", "src/*.c",
+            "a.txt", "src/main.c", "b.py", "docs/index.md",
             "*.c", "a*.txt", "back\\\\slash.txt", "d*", "*/q.md", "src/**", "**/*.md", "?.py", "docs/?.md", "src/mai?.c"]
 
 
@@ -324,6 +327,13 @@ def run_tree(case, ctx, res):
                           dep5=text, toml=(root / "REUSE.toml").read_text(),
                           other=[(k, before[1].get(k), after[1].get(k)) for k in set(before[1]) | set(after[1]) if before[1].get(k) != after[1].get(k)][:4],
                           lint_from=[lcwd, lgargs])
+            return
+        # there is nothing left to convert: a second run refuses and leaves REUSE.toml alone
+        toml_bytes = (root / "REUSE.toml").read_bytes()
+        rc2 = run_cli(["--no-multiprocessing", "--root", str(root), "convert-dep5"], cwd=str(root))
+        if rc2.escaped or rc2.exit_code == 0 or (root / "REUSE.toml").read_bytes() != toml_bytes:
+            res.violation("second-conversion-not-refused", f"convert-dep5 without a dep5 (right after a conversion): exit {rc2.exit_code} {rc2.exc_type}, "
+                          f"REUSE.toml {'changed' if (root / 'REUSE.toml').read_bytes() != toml_bytes else 'unchanged'}", **rc2.brief())
             return
         if text.count("Files:") >= 2:
             res.sigs.add(short_hash(text))
